@@ -8,7 +8,7 @@ A mutant no monitor reports is either equivalent or a blind spot; results go to 
 import argparse, json, os, shutil, subprocess, sys, time
 from multiprocessing import Pool
 
-V = "/verif"; REPO = "/repo"; H = V + "/harness"; TMP = "/tmp/mw"
+V = "/verif"; REPO = "/repo"; TMP = "/tmp/mw"; H = TMP + "/harness"; PRISTINE = TMP + "/pristine"  # snapshots taken at start: the run is immune to later edits of /repo and /verif/harness
 ENV = dict(os.environ, GOFLAGS="-mod=mod", GOPROXY="off", GOSUMDB="off", GOTOOLCHAIN="local")
 FILEMAP = {
  "packet.go": ["C01", "C03", "C02", "C05", "C04", "C20", "C06"],
@@ -40,7 +40,7 @@ def setup(k):
     w = f"{TMP}/{k}"
     if os.path.isdir(w): shutil.rmtree(w)
     os.makedirs(w)
-    subprocess.run(["rsync", "-a", "--exclude", ".git", REPO + "/", w + "/repo/"], check=True)
+    subprocess.run(["rsync", "-a", PRISTINE + "/", w + "/repo/"], check=True)
     mod = open(H + "/go.mod").read().replace("=> /repo", f"=> {w}/repo")
     open(w + "/go.mod", "w").write(mod)
     shutil.copy(H + "/go.sum", w + "/go.sum")
@@ -51,7 +51,7 @@ def work(job):
     w = f"{TMP}/{k}"
     if not os.path.isdir(w + "/repo"): setup(k)
     target = f"{w}/repo/{rel}"
-    orig = open(f"{REPO}/{rel}", "rb").read()
+    orig = open(f"{PRISTINE}/{rel}", "rb").read()
     res = dict(file=rel, id=mid, line=entry["line"], func=entry["func"], desc=entry["desc"])
     try:
         shutil.copy(mfile, target)
@@ -104,15 +104,19 @@ def main():
     if a.rerun_survivors:
         only = {(r["file"], r["id"]) for r in map(json.loads, open(a.rerun_survivors)) if r["status"] == "SURVIVED" and not (r["file"] == "header_extension.go" and (r["func"].endswith(".Set") or r["func"].endswith(".Del")))}
         files = sorted({f for f, _ in only})
+    shutil.rmtree(TMP, ignore_errors=True)
     os.makedirs(TMP, exist_ok=True); os.makedirs(os.path.dirname(a.out), exist_ok=True)
+    subprocess.run(["git", "-C", REPO, "diff", "--quiet"], check=True)  # refuse to snapshot a modified tree
+    subprocess.run(["rsync", "-a", "--exclude", ".git", REPO + "/", PRISTINE + "/"], check=True)
+    subprocess.run(["rsync", "-a", V + "/harness/", H + "/"], check=True)
     rc, out = sh(["go", "build", "-o", TMP + "/mutgen", "./cmd/mutgen"], H, 300)
     if rc: print(out); sys.exit(1)
     jobs = []
     for rel in files:
         d = f"{TMP}/mutants/{rel}.d"
         if os.path.isdir(d): shutil.rmtree(d)
-        subprocess.run([TMP + "/mutgen", "-set", str(a.set), "-file", f"{REPO}/{rel}", "-out", d], check=True)
-        idx = json.load(open(d + "/index.json"))
+        subprocess.run([TMP + "/mutgen", "-set", str(a.set), "-file", f"{PRISTINE}/{rel}", "-out", d], check=True)
+        idx = json.load(open(d + "/index.json")) or []
         if a.limit: idx = idx[:a.limit]
         for e in idx:
             if only is not None and (rel, e["id"]) not in only: continue
